@@ -4,11 +4,14 @@ package notifier
 
 // Correspondence probe for the Coq model Burrow.Notifier (C13, C14, notifier half of C10).
 // One case = one history: module configurations, group names with the expected outcome of each module's
-// allow/deny regexps, (cluster, group) pairs, and a sequence of (clock step, pair, status) evaluator responses.
+// allow/deny regexps, (cluster, group) pairs, and a sequence of steps: evaluator responses (clock step, pair, status),
+// group-list refreshes (cluster, list) and whole refresh cycles (cluster list + one group list per cluster).
 // The real Coordinator is configured through Configure() from viper (allow/deny regexps compiled there, threshold /
-// send-interval defaults set there); its modules are then wrapped by a recording implementation of Module, and every
-// response is pushed through the real responseLoop -> checkAndSendResponseToModules -> notifyModule with the
-// virtual clock.  Output: per response the sorted set of Notify calls, then the incident record of every pair.
+// send-interval defaults set there); its modules are then wrapped by a recording implementation of Module; every
+// response is pushed through the real responseLoop -> checkAndSendResponseToModules -> notifyModule, every group list
+// through the real processConsumerList (reply channel), every refresh cycle through the real sendClusterRequest ->
+// processClusterList -> processConsumerList with the probe answering the storage requests - all with the virtual
+// clock.  Output: per step the sorted set of Notify calls, then the cluster entries and every incident record.
 // Format: see /verif/ocaml/drv_notifier.ml.
 
 import (
@@ -18,7 +21,6 @@ import (
 	"sort"
 	"strconv"
 	"strings"
-	"sync"
 	"testing"
 	"text/template"
 	"time"
@@ -164,17 +166,15 @@ func vnHistory(t *vnToks) (res string) {
 		}
 	}
 
-	// (cluster, group) pairs, registered the way processClusterList / processConsumerList do
+	// (cluster, group) pairs the responses refer to.  Nothing is registered by the probe: cluster entries and group
+	// records come into being only through the real processClusterList / processConsumerList (steps "c" and "g").
 	np := t.int()
 	type pair struct{ cluster, group string }
 	pairs := make([]pair, np)
 	for p := 0; p < np; p++ {
 		pairs[p] = pair{"c" + strconv.Itoa(t.int()), names[t.int()]}
-		if _, ok := nc.clusters[pairs[p].cluster]; !ok {
-			nc.clusters[pairs[p].cluster] = &clusterGroups{Lock: &sync.RWMutex{}, Groups: make(map[string]*consumerGroup)}
-		}
-		nc.clusters[pairs[p].cluster].Groups[pairs[p].group] = &consumerGroup{LastNotify: make(map[string]time.Time)}
 	}
+	nc.App.StorageChannel = make(chan *protocol.StorageRequest)
 
 	ids := make(map[string]int) // event ids numbered by first appearance in a group's incident record
 	idOf := func(s string) string {
@@ -186,35 +186,111 @@ func vnHistory(t *vnToks) (res string) {
 		}
 		return "?" + s
 	}
+	groupList := func() (list []string, closed bool) {
+		n := t.int()
+		if n < 0 {
+			return nil, true
+		}
+		list = make([]string, n)
+		for i := 0; i < n; i++ {
+			list[i] = names[t.int()]
+		}
+		return list, false
+	}
 
 	ns := t.int()
 	clock := t0
 	steps := make([]string, 0, ns)
 	for s := 0; s < ns; s++ {
+		kind := t.next()
 		clock += t.i64()
-		p := pairs[t.int()]
-		status := t.int()
 		VerifSetClock(clock)
 		calls = calls[:0]
-		response := &protocol.ConsumerGroupStatus{Cluster: p.cluster, Group: p.group, Status: protocol.StatusConstant(status)}
-
-		// One turn of the real responseLoop.  The nil response is a barrier: once it has been received the loop has
-		// finished the previous iteration (running.Add + go checkAndSendResponseToModules); closing the quit channel
-		// then ends the loop and running.Wait() returns when the handler goroutine is done.
-		nc.quitChannel = make(chan struct{})
-		nc.running.Add(1)
-		go nc.responseLoop()
-		nc.evaluatorResponse <- response
-		nc.evaluatorResponse <- nil
-		close(nc.quitChannel)
-		nc.running.Wait()
-
-		cg := nc.clusters[p.cluster].Groups[p.group]
-		if cg.ID != "" {
-			if _, ok := ids[cg.ID]; !ok {
-				ids[cg.ID] = len(ids) + 1
+		switch kind {
+		case "r":
+			p := pairs[t.int()]
+			status := t.int()
+			response := &protocol.ConsumerGroupStatus{Cluster: p.cluster, Group: p.group, Status: protocol.StatusConstant(status)}
+			if _, ok := nc.clusters[p.cluster]; !ok {
+				// checkAndSendResponseToModules dereferences the missing cluster entry (nil *clusterGroups) and would take
+				// the whole test binary down from its goroutine.  The generators never ask for this (no evaluation is
+				// requested for a cluster without entry); the model drops such a response.
+				break
 			}
+
+			// One turn of the real responseLoop.  The nil response is a barrier: once it has been received the loop has
+			// finished the previous iteration (running.Add + go checkAndSendResponseToModules); closing the quit channel
+			// then ends the loop and running.Wait() returns when the handler goroutine is done.
+			nc.quitChannel = make(chan struct{})
+			nc.running.Add(1)
+			go nc.responseLoop()
+			nc.evaluatorResponse <- response
+			nc.evaluatorResponse <- nil
+			close(nc.quitChannel)
+			nc.running.Wait()
+
+			if cl, ok := nc.clusters[p.cluster]; ok {
+				if cg, ok := cl.Groups[p.group]; ok && cg.ID != "" {
+					if _, ok := ids[cg.ID]; !ok {
+						ids[cg.ID] = len(ids) + 1
+					}
+				}
+			}
+		case "g":
+			// the real processConsumerList, fed through its reply channel the way the storage module answers
+			cluster := "c" + strconv.Itoa(t.int())
+			list, closed := groupList()
+			reply := make(chan interface{})
+			nc.running.Add(1)
+			go nc.processConsumerList(cluster, reply)
+			if closed {
+				close(reply)
+			} else {
+				reply <- list
+			}
+			nc.running.Wait()
+		case "c":
+			// a whole refresh cycle through the real sendClusterRequest -> processClusterList -> processConsumerList,
+			// with the probe in the role of the storage module (as in TestCoordinator_sendClusterRequest)
+			n := t.int()
+			clusterList := make([]string, n)
+			lists := make(map[string][]string)
+			closedReply := make(map[string]bool)
+			for i := 0; i < n; i++ {
+				clusterList[i] = "c" + strconv.Itoa(t.int())
+				list, closed := groupList()
+				if _, dup := lists[clusterList[i]]; !dup {
+					lists[clusterList[i]] = list
+					closedReply[clusterList[i]] = closed
+				}
+			}
+			served := make(chan struct{})
+			go func() {
+				defer close(served)
+				request := <-nc.App.StorageChannel
+				if request.RequestType != protocol.StorageFetchClusters {
+					panic("verif: expected StorageFetchClusters")
+				}
+				request.Reply <- clusterList
+				for i := 0; i < len(lists); i++ {
+					request := <-nc.App.StorageChannel
+					if request.RequestType != protocol.StorageFetchConsumers {
+						panic("verif: expected StorageFetchConsumers")
+					}
+					if closedReply[request.Cluster] {
+						close(request.Reply)
+					} else {
+						request.Reply <- lists[request.Cluster]
+					}
+				}
+			}()
+			nc.sendClusterRequest()
+			<-served
+			nc.running.Wait()
+		default:
+			panic("verif: unknown step kind " + kind)
 		}
+
 		out := make([]string, 0, len(calls))
 		for _, c := range calls {
 			// a call made while the incident record was already closed again still belongs to the id it carries
@@ -242,16 +318,48 @@ func vnHistory(t *vnToks) (res string) {
 		}
 	}
 
-	groups := make([]string, np)
-	for p := 0; p < np; p++ {
-		cg := nc.clusters[pairs[p].cluster].Groups[pairs[p].group]
-		ln := make([]string, nm)
-		for i := 0; i < nm; i++ {
-			ln[i] = vnTime(cg.LastNotify["m"+strconv.Itoa(i+1)])
-		}
-		groups[p] = idOf(cg.ID) + ":" + vnTime(cg.Start) + ":" + strings.Join(ln, "/")
+	// every cluster entry and every record that exists after the last step
+	clusterNum := func(c string) int { n, _ := strconv.Atoi(strings.TrimPrefix(c, "c")); return n }
+	known := make([]int, 0, len(nc.clusters))
+	for c := range nc.clusters {
+		known = append(known, clusterNum(c))
 	}
-	return strings.Join(steps, " | ") + " || " + strings.Join(groups, " ; ") + rxdiff
+	sort.Ints(known)
+	final := make([]string, 0, 8)
+	ks := make([]string, len(known))
+	for i, c := range known {
+		ks[i] = strconv.Itoa(c)
+	}
+	if len(ks) == 0 {
+		final = append(final, "K:-")
+	} else {
+		final = append(final, "K:"+strings.Join(ks, ","))
+	}
+	for _, c := range known {
+		cl := nc.clusters["c"+strconv.Itoa(c)]
+		idx := make([]int, 0, len(cl.Groups))
+		unknownName := ""
+		for g := range cl.Groups {
+			if i, ok := nameIndex[g]; ok {
+				idx = append(idx, i)
+			} else {
+				unknownName += " ?" + g
+			}
+		}
+		sort.Ints(idx)
+		for _, gi := range idx {
+			cg := cl.Groups[names[gi]]
+			ln := make([]string, nm)
+			for i := 0; i < nm; i++ {
+				ln[i] = vnTime(cg.LastNotify["m"+strconv.Itoa(i+1)])
+			}
+			final = append(final, fmt.Sprintf("c%d/g%d=%s:%s:%s", c, gi, idOf(cg.ID), vnTime(cg.Start), strings.Join(ln, "/")))
+		}
+		if unknownName != "" {
+			final = append(final, fmt.Sprintf("c%d/%s", c, unknownName))
+		}
+	}
+	return strings.Join(steps, " | ") + " || " + strings.Join(final, " ; ") + rxdiff
 }
 
 func TestVerifProbeNotifier(t *testing.T) {
